@@ -56,6 +56,43 @@ pub fn run_c13(run: &mut Run) -> anyhow::Result<()> {
     for case in 0..(if run.quick() { 3 } else { 40 }) {
         dial_at_connection_limit(run, case)?;
     }
+    for case in 0..(if run.quick() { 3 } else { 30 }) {
+        ipv6_known_peer(run, case)?;
+    }
+    Ok(())
+}
+
+/// "A usable address" includes IPv6 ones, in each of the three forms an `Address` can take: a High-affinity
+/// peer known only by an IPv6 address must be connected within a few checks (both ends on IPv6 endpoints
+/// of the fabric).
+fn ipv6_known_peer(run: &mut Run, case: u64) -> anyhow::Result<()> {
+    let seed = run.seed ^ 0x13_a6 ^ (case << 12);
+    run.mark(&format!("scenario ipv6_known_peer case {case} seed {} (re-run with ./check C13 --seed <seed>)", run.seed));
+    let rt = paused_rt();
+    let res: anyhow::Result<(bool, String)> = rt.block_on(async move {
+        let fabric = Fabric::new(seed);
+        let a6 = |n: u16| SocketAddr::from((std::net::Ipv6Addr::new(0xfd00, 0, 0, 0, 0, 0, 0, n), 4000 + n));
+        let mut cfg: Config = config_idle(60_000);
+        cfg.connectivity_check_interval_ms = Some(1_000);
+        let d = start_node_at(&fabric, a6(1), key_of(seed, 1), cfg)?;
+        let t = start_node_at(&fabric, a6(2), key_of(seed, 2), config_idle(60_000))?;
+        let address: anemo::types::Address = match case % 3 {
+            0 => t.addr.into(),
+            1 => anemo::types::Address::HostAndPort { host: "fd00::2".into(), port: t.addr.port() },
+            _ => anemo::types::Address::AddressString(t.addr.to_string().into()),
+        };
+        let shown = format!("{address}");
+        d.net.known_peers().insert(PeerInfo { peer_id: t.id, affinity: PeerAffinity::High, address: vec![address] });
+        tokio::time::sleep(Duration::from_millis(4_500)).await;
+        Ok((d.net.peers().contains(&t.id), shown))
+    });
+    drop(rt);
+    let (ok, shown) = res?;
+    run.eval(&format!("ipv6-known-peer {case}"), true);
+    run.count("ipv6-known-peer", if ok { "connected" } else { "not-connected" });
+    if !ok {
+        run.oracle_fail(json!({"kind": "a reachable High-affinity peer known by an IPv6 address was not connected by background dialing", "address": shown, "seed": run.seed, "case": case}));
+    }
     Ok(())
 }
 
